@@ -4,6 +4,7 @@ import Driver.Codec
 import Driver.Common
 import Driver.C06
 import MocVerif.Model.ST
+import MocVerif.Model.Merge2D
 
 namespace Drv
 open Moc
@@ -76,6 +77,14 @@ def stepST (toks : List String) : Option String :=
   | ["st_sfold", sm, a, tp] => do
     let sm ← parseRngs sm; let a ← parseST a; let tp ← parseNats tp
     pure (bits (tp.map fun t => sfoldB sm a t))
+  | ["st_merge", tt, a, b] => do
+    let a ← parseST a; let b ← parseST b
+    let op ← (match tt with | "14" => some Merge2D.Op.union | "8" => some Merge2D.Op.inter | "4" => some Merge2D.Op.diff | _ => none)
+    match toFlat a, toFlat b with
+    | some fa, some fb =>
+      let r := Merge2D.merge2 op fa fb
+      pure (if r.isEmpty then "_" else ";".intercalate (r.map fun e => s!"{showRng e.1}@{showRngs e.2}"))
+    | _, _ => pure "not-flat"
   | ["st_tfold_r", tm, a] => do
     let tm ← parseRngs tm; let a ← parseST a
     match toFlat a with
